@@ -557,9 +557,15 @@ impl Compress {
             if let Some(ref_offset) = dict.insert(&packet[offset..final_offset], compressed.len())
             {
                 assert!(ref_offset < 65536 >> 2); // Checked in dict.insert()
-                compressed.push((ref_offset >> 8) as u8 | 0xc0);
-                compressed.push((ref_offset & 0xff) as u8);
-                break;
+                // Pointing to a suffix that is itself reached through pointers
+                // lengthens the chain; never emit a name the parser would reject.
+                if Self::indirections(compressed, ref_offset)
+                    < DNS_MAX_HOSTNAME_INDIRECTIONS as usize
+                {
+                    compressed.push((ref_offset >> 8) as u8 | 0xc0);
+                    compressed.push((ref_offset & 0xff) as u8);
+                    break;
+                }
             }
             let offset_next = offset + 1 + label_len;
             compressed.extend_from_slice(&packet[offset..offset_next]);
@@ -571,6 +577,22 @@ impl Compress {
         CompressedNameResult {
             name_len: compressed.len() - initial_compressed_len,
             final_offset,
+        }
+    }
+
+    /// Returns the number of indirections followed when reading the trusted
+    /// name starting at `offset`.
+    fn indirections(packet: &[u8], mut offset: usize) -> usize {
+        let mut indirections = 0;
+        loop {
+            match packet[offset] as usize {
+                0 => return indirections,
+                len if len & 0xc0 == 0xc0 => {
+                    indirections += 1;
+                    offset = (BigEndian::read_u16(&packet[offset..]) & 0x3fff) as usize;
+                }
+                len => offset += 1 + len,
+            }
         }
     }
 
